@@ -93,6 +93,11 @@ def knot_vector(rng, p, n, cls='random', lohi=(0.0, 1.0), fine=False):
         r = rng.randint(1, min(p - 1, n - p - 1)) if min(p - 1, n - p - 1) >= 1 else 0
         for k in range(1, r + 1):
             vals[n - k] = vals[n]
+        if rng.random() < 0.4:
+            # ... and repeated beyond the domain end as well (up to multiplicity p + 1 in all: the basis functions jump there and the
+            # closed last span means the left limit)
+            for k in range(1, rng.randint(1, p - r) + 1):
+                vals[n + k] = vals[n]
         if p > 1 and rng.random() < 0.4 and n - r > p + 2:
             vals[p + 1] = vals[p]
         vals.sort()
